@@ -134,6 +134,10 @@ func (s *Star) GenScenario(rng *rand.Rand, shape Shape, now int64) *Scn {
 type ScnOpt struct {
 	InIf, EgIf *IfSpec
 	Kinds      []SegKind
+	// KeepPreXover: for a cross-over scenario arriving over the internal
+	// network, leave the current hop at the last hop of the first segment (as
+	// if this router, not the ingress router, had to effect the segment switch).
+	KeepPreXover bool
 }
 
 // GenScenarioOpt is GenScenario with overrides; the result is a valid packet
@@ -296,7 +300,7 @@ func (s *Star) GenScenarioOpt(rng *rand.Rand, shape Shape, now int64, opt ScnOpt
 		seg.Seal(rng)
 		spec.Segs = append(spec.Segs, u)
 	}
-	if shape == ShXover && !inIf.Owned {
+	if shape == ShXover && !inIf.Owned && !opt.KeepPreXover {
 		// The sibling (ingress) router has already switched segments: the
 		// packet arrives with the next segment's first hop current, and only
 		// that hop is validated here.
